@@ -11,7 +11,8 @@ VARIABLES s, op, phase
 vars == <<s, op, phase>>
 
 Elems == IF Elem = "int" THEN {1, 2, 3}
-         ELSE {IInt(1), IId("NOOP"), IIns("NOOP"), IList(<<IInt(1), IList(<<IId("NOOP")>>)>>)}   \* two items that print alike
+         \* two items that print alike; two lists that differ only deep inside
+         ELSE {IId("NOOP"), IIns("NOOP"), IList(<<IInt(1), IList(<<IInt(2)>>)>>), IList(<<IInt(1), IList(<<IInt(3)>>)>>)}
 SeqsUpTo(S, d) == UNION {[1..k -> S] : k \in 0..d}
 Pos(st) == 0..(Len(st) + 2)
 Ops(st) ==
